@@ -381,7 +381,7 @@ func sessions(h *History) (map[string]*sessInfo, []string) {
 		}
 		switch o.Op.Kind {
 		case "create":
-			if o.Status == 201 && o.Ref != "" {
+			if o.Status == 201 && o.Ref != "" && !o.Op.OneTime {
 				s := &sessInfo{Name: o.Op.Sess, Supi: o.Op.Supi, Ref: o.Ref, CreateOp: o}
 				s.Reported = append(s.Reported, o.Reported...)
 				m[o.Op.Sess] = s
